@@ -452,7 +452,7 @@ var crossTalk struct {
 	msgs []string
 }
 
-func (x *W) installDispatch(k int, late int, specs []string) {
+func (x *W) installDispatch(k int, late int, specs []string) string {
 	var cbs []*listener.Callback
 	for i := 0; i+1 < len(specs); i += 2 {
 		s, _ := strconv.Atoi(specs[i])
@@ -484,6 +484,12 @@ func (x *W) installDispatch(k int, late int, specs []string) {
 	for i := early; i < len(cbs); i++ {
 		d.AddListener(cbs[i])
 	}
+	// what the Dispatch presents to the world after all additions (model: outer_cfg)
+	comps := "nil"
+	if c := d.Components(); c != nil {
+		comps = x.strMask(c)
+	}
+	return fmt.Sprintf("cfg=%d/%s", int(d.Subscriptions()), comps)
 }
 
 func (x *W) callback(to int, subs int, comps string) listener.Callback {
@@ -892,8 +898,7 @@ func (h *H) exec(wk int, cmd string, a []string, idxSeed int) (res string, msg s
 			late = atoi(k[i+1:])
 			k = k[:i]
 		}
-		x.installDispatch(atoi(k), late, a[1:])
-		return "ok", ""
+		return "ok " + x.installDispatch(atoi(k), late, a[1:]), ""
 	case "LOCKED":
 		return fmt.Sprintf("b %d", b01(x.w.IsLocked())), ""
 	case "STATS":
